@@ -733,6 +733,29 @@ def main(ctx):
                         stomp, i, (float(r2[i]), float(d2[i])), (sr.tolist(), sd.tolist())))
             return rec.ok(case, outcome="arr:%s-of-%d" % (form, n), nontrivial=n > 1, calls=2 + 2 * n)
 
+        if kind == "rad":
+            # the radians spelling of the same conversion, called twice with the SAME argument arrays
+            _, stomp, pts = case
+            ra = np.array([p[0] for p in pts])
+            dec = np.array([p[1] for p in pts])
+            ara, adec = np.deg2rad(ra), np.deg2rad(dec)
+            k1, k2 = ara.copy(), adec.copy()
+            x, y, z = coords.eq2xyz(ara, adec, units="rad", stomp=stomp)
+            n = len(pts)
+            if not (_is1d(x, n) and _is1d(y, n) and _is1d(z, n) and _finite(x, y, z)):
+                return rec.fail(case, "eq2xyz(units='rad', stomp=%s): bad result %r" % (stomp, (x, y, z)))
+            vref = refmat(False, "eq", "xyz-stomp" if stomp else "xyz") @ vec(ra, dec)
+            e = float(sep(np.array([x, y, z], dtype=LD), vref).max())
+            if not e <= TOL_EXACT:
+                return rec.fail(case, "eq2xyz(units='rad', stomp=%s): vectors are up to %.3g deg away from the unit vectors of "
+                                      "the points" % (stomp, e))
+            if not (same_bits(ara, k1) and same_bits(adec, k2)):
+                return rec.fail(case, "eq2xyz(units='rad', stomp=%s): the input array was modified in place" % stomp)
+            x2, y2, z2 = coords.eq2xyz(ara, adec, units="rad", stomp=stomp)
+            if not (same_bits(x, x2) and same_bits(y, y2) and same_bits(z, z2)):
+                return rec.fail(case, "eq2xyz(units='rad', stomp=%s): a second call with the same arrays gives another result" % stomp)
+            return rec.ok(case, outcome="rad-of-%d%s" % (n, "+stomp" if stomp else ""), nontrivial=True, calls=2)
+
         _, stomp, p, q = case
         x, y, z = coords.eq2xyz(np.array([p[0], q[0]]), np.array([p[1], q[1]]), stomp=stomp)
         if not (_is1d(x, 2) and _is1d(y, 2) and _is1d(z, 2) and _finite(x, y, z)):
@@ -769,6 +792,7 @@ def main(ctx):
         for form in ("ndarray", "list"):
             xunits += [("arr", stomp, form, tuple(ch)) for ch in chunks(windows(xy_pts), 10)]
         xunits += [("pair", stomp, xy_pairs[i], tuple(xy_pairs[:i])) for i in range(1, len(xy_pairs))]
+        xunits += [("rad", stomp, tuple(ch)) for ch in chunks(windows(xy_pts), 10)]
 
     def expand_xyz(u):
         if u[0] == "eq":
@@ -780,13 +804,16 @@ def main(ctx):
         elif u[0] == "arr":
             for w in u[3]:
                 yield ("arr", u[1], u[2], w)
+        elif u[0] == "rad":
+            for w in u[2]:
+                yield ("rad", u[1], w)
         else:
             for q in u[3]:
                 yield ("pair", u[1], q, u[2])
 
     ctx.lattice("xyz", xunits, guarded(one_xyz), expand=expand_xyz,
                 bounds=dict(eq_points=len(xy_pts), vectors=len(VECS), pair_points=len(xy_pairs),
-                            stomp=[False, True], units=["deg"]))
+                            stomp=[False, True], units=["deg", "rad (eq2xyz only: forward, non-modification, repeatability)"]))
 
     # ------------------------------------------------------------ rotate
     ANG = [0.0, 10.0, -10.0, 8.0, 90.0, 123.0, 180.0, 270.0, 360.0] + ctx.pick([], [33.3, -round(gen[1][0] / 2, 1)])
